@@ -70,8 +70,10 @@ def check(ck):
         ck.require(okk, "C12.3", "%s: `%s`" % (q.fn(fp), dump(c)[:70]), "enqueue(self.process_request_thread, request, client_address)",
                    "the connection is handed over as `%s`: the request/handler pair is altered (e.g. finish_request without shutdown_request)" % dump(c)[:80],
                    q.loc(fp, n))
+    from vlib.model import is_logging_call
     others = [n for n in gp.live_nodes() if n.kind in ("stmt", "return", "raise", "test") and not (n.kind == "stmt" and isinstance(n.ast, ast.Expr) and
-              (isinstance(n.ast.value, ast.Constant) or any(n is e for (e, _c) in enq))) and not (n.kind == "return" and n.ast is None)]
+              (isinstance(n.ast.value, ast.Constant) or any(n is e for (e, _c) in enq) or
+               (isinstance(n.ast.value, ast.Call) and is_logging_call(n.ast.value)))) and not (n.kind == "return" and n.ast is None)]
     ck.require(not others, "C12.3", "%s: does nothing else" % q.fn(fp), "only the hand-off",
                "process_request does more than handing the connection to the pool: `%s`" % (q.stmt_text(others[0]) if others else ""), q.loc(fp, fp.node))
 
